@@ -300,6 +300,7 @@ func familyCache(t *testing.T) {
 		cacheConcurrent()
 	}
 	synctest.Test(t, func(t *testing.T) {
+		defer guard()
 		if rp := loadReplay(); rp != nil {
 			cacheReplay(rp)
 			return
